@@ -29,22 +29,22 @@ def parseMulti (s : String) (hexKeys : Bool) : List (String × List String) :=
   if s.isEmpty then [] else
   (s.splitOn ";").filterMap (fun kv =>
     match kv.splitOn "=" with
-    | [k, vs] => some (if hexKeys then unhexD k else k, if vs.isEmpty then [] else (vs.splitOn ",").map unhexD)
+    | [k, vs] => some (if hexKeys then unhexD k else k, if vs.isEmpty then [] else (vs.splitOn ",").map (fun v => unhexD (v.drop 1).toString))
     | _ => none)
 
 def flag (s : String) : Bool := s == "1"
 
 def refVerdict (st : State) (doc : Spec.Doc) (api : Serve.ApiM) (cors : Bool) (cfg : Serve.Cfg) (req : Serve.Req) : String :=
-  if cfg.spec && req.path == api.base ++ "/" ++ api.specName then "spec|-|-" else
+  if cfg.spec && req.path == api.base ++ "/" ++ api.specName then "spec|-|-|-" else
   match Ref.refRoute doc api.base (cors && cfg.cors) req.method req.path with
-  | none => "nf|-|-"
+  | none => "nf|-|-|-"
   | some (.cors tpl) =>
       match doc.paths.find? (·.raw == tpl) with
-      | some pi => s!"cors({",".intercalate (Ref.refCorsMethods pi)};{",".intercalate ((Ref.refCorsHeaders doc pi).toArray.qsort (· < ·)).toList})|-|-"
-      | none => "cors(?)|-|-"
+      | some pi => s!"cors({",".intercalate (Ref.refCorsMethods pi)};{",".intercalate ((Ref.refCorsHeaders doc pi).toArray.qsort (· < ·)).toList})|-|-|-"
+      | none => "cors(?)|-|-|-"
   | some (.op m tpl) =>
     match (doc.paths.find? (·.raw == tpl)).bind (fun pi => pi.ops.find? (·.method == m)) with
-    | none => "op(?)|-|-"
+    | none => "op(?)|-|-|-"
     | some o =>
       let pp := if (o.parameters.any (·.loc == "path")) then
           match Ref.refPathParams st.leaf api.base tpl o req.path with
@@ -55,13 +55,26 @@ def refVerdict (st : State) (doc : Spec.Doc) (api : Serve.ApiM) (cors : Bool) (c
         | .pub => "pub"
         | .ranOneOf acc => "ran{" ++ ",".intercalate (acc.map (fun (s, t) => toHex (s ++ ":" ++ t))) ++ "}"
         | .denied => "401"
-      s!"op({m} {tpl})|{a}|{pp}"
+      let qh := match Ref.refParams st.leaf o req with
+        | .ok (qs, hs) => "ok Query[" ++ ",".intercalate qs ++ "] Headers[" ++ ",".intercalate hs ++ "]"
+        | .error fs => "err{" ++ ",".intercalate fs ++ "}"
+      -- headers read by the security schemes of the operation's own requirement (goag adds them
+      -- to the parsed header parameters; a fault on them is not a fault of a declared parameter)
+      let secNames := (Serve.effectiveReqs doc o).flatMap (fun alt => alt.filterMap (fun n =>
+        match Serve.schemeOf doc n with
+        | some .bearer => some (toHex "Authorization")
+        | some (.apiKeyHeader h) => some (toHex h)
+        | _ => none))
+      s!"op({m} {tpl})|{a}|{pp}|{qh}|sec[{",".intercalate secNames}]"
 
 /-- known-finding classes the input belongs to (decidable predicates over spec, config, request) -/
 def kfClasses (doc : Spec.Doc) (api : Serve.ApiM) (cors : Bool) (cfg : Serve.Cfg) (req : Serve.Req) : List String :=
   if cfg.spec && req.path == api.base ++ "/" ++ api.specName then [] else
   match Ref.refRoute doc api.base (cors && cfg.cors) req.method req.path with
-  | some (.cors _) => []
+  | some (.cors tpl) =>
+    match doc.paths.find? (·.raw == tpl) with
+    | none => []
+    | some pi => if pi.ops.any (fun o => (Serve.effectiveReqs doc o).any (fun a => a.length != 1)) then ["KF-C11-arity"] else []
   | some (.op m tpl) =>
     match (doc.paths.find? (·.raw == tpl)).bind (fun pi => pi.ops.find? (·.method == m)) with
     | none => []
@@ -99,7 +112,9 @@ def handle (st : State) (fields : List String) : IO (State × String) := do
       | .ok doc =>
         match Serve.plan doc (unhexD baseHex) (unhexD nameHex) (flag corsF) with
         | .error e => pure ({ st with doc := some doc, api := none }, s!"{pkg}\tplan-error:{e}")
-        | .ok api => pure ({ st with doc := some doc, api := some api, cors := flag corsF }, s!"{pkg}\tplan-ok base={api.base}")
+        | .ok api => pure ({ st with doc := some doc, api := some api, cors := flag corsF, leaf := [] }, s!"{pkg}\tplan-ok base={api.base}")
+  | ["leaf", tag, lexHex, res] =>
+    pure ({ st with leaf := ((tag, unhexD lexHex), if res == "none" then none else some res) :: st.leaf }, "leaf-ok")
   | ["serve", id, method, pathHex, mws, nf, spec, cors, parse, auth, query, headers] =>
     match st.doc, st.api with
     | some doc, some api =>
